@@ -115,6 +115,10 @@ pub assume_specification<P: AsRef<std::path::Path>>[ std::fs::remove_file ](p: P
 #[verifier::allow(undeclared_external_trait)]
 pub assume_specification<P: AsRef<std::path::Path>>[ std::fs::metadata ](p: P) -> (r: Result<std::fs::Metadata, std::io::Error>)
     ensures r == fs_metadata_result(aspath::<P>(p));
+/// (not used by the code as it is) the metadata of an open file: an oracle of the file
+pub uninterp spec fn file_metadata_result(f: &std::fs::File) -> Result<std::fs::Metadata, std::io::Error>;
+pub assume_specification[ std::fs::File::metadata ](f: &std::fs::File) -> (r: Result<std::fs::Metadata, std::io::Error>)
+    ensures r == file_metadata_result(f);
 pub assume_specification[ std::fs::Metadata::len ](m: &std::fs::Metadata) -> (r: u64)
     ensures r == metadata_len(m);
 
